@@ -200,6 +200,7 @@ func genC06(t *core.Tape, tier string) *Scenario {
 		}
 	case 1: // (ii) grammar-aware adversarial fields
 		info.class = "adversarial"
+		unknownEnc := false
 		switch {
 		case c.Proto == PConnect && !streaming:
 			can.Status = weirdStatuses[9+t.Choose(len(weirdStatuses)-9, "adv.status")]
@@ -211,7 +212,14 @@ func genC06(t *core.Tape, tier string) *Scenario {
 				can.EndErr = []error{io.ErrUnexpectedEOF, errors.New("read tcp 10.0.0.1:443: connection reset by peer")}[t.Choose(2, "adv.bodyfails.how")]
 				sc.Notes["nonok_body_read_failure"]++
 			}
-			info.httpOnly = can.EndErr != nil || !strings.Contains(string(can.Body), `"code":"internal"`) && !strings.Contains(string(can.Body), `"code":"code_17"`) && !strings.Contains(string(can.Body), `"code":"code_4294967296"`) && !strings.Contains(string(can.Body), `"code":7`)
+			if t.Bool(1, 4, "adv.encoding") {
+				// an intermediary's error page in an encoding the client does not
+				// know: certainly no protocol-level error
+				can.Header["Content-Encoding"] = []string{[]string{"br", "deflate", "zstd", "GZIP", "gzip, gzip"}[t.Choose(5, "adv.encoding.v")]}
+				sc.Notes["nonok_unknown_encoding"]++
+				unknownEnc = true
+			}
+			info.httpOnly = unknownEnc || can.EndErr != nil || !strings.Contains(string(can.Body), `"code":"internal"`) && !strings.Contains(string(can.Body), `"code":"code_17"`) && !strings.Contains(string(can.Body), `"code":"code_4294967296"`) && !strings.Contains(string(can.Body), `"code":7`)
 		case c.Proto == PConnect:
 			js := badEndStream[t.Choose(len(badEndStream), "adv.end")]
 			body := []byte{}
